@@ -14,11 +14,11 @@ CHECKS = {
     # id: (category, technique, text, note, design_ref)
     'C01': (EXP, 'runtime monitoring: sanitized exporter runs + offline oracle (reference model vs independent RFC 8618 interpreter vs CdnsReader dump)',
             'Seeded record streams (every optional-field subset, boundary integers per field width, arbitrary byte strings, RR lists) under random hints / tick rates / block sizes / 1-4 parameter sets / interleaved write_block, all compressions, '
-            'executed by the ' + ASAN + '. The output bytes are interpreted by an independent strict reader and read back by the real CdnsReader; both must equal the reference model record for record.' + HELD,
+            'executed by the ' + ASAN + '. The output bytes are interpreted by an independent strict reader and read back by the real CdnsReader; both must equal the reference model record for record; the reader is used in both documented idioms (fresh block object per block, one object that every block is assigned to).' + HELD,
             'Trusts vlib/model.py (hint filter from RFC 8618 7.3.1.1.1), vlib/cbor.py, vlib/cdns_schema.py. Timestamps normalised, secs*tps+ticks < 2^63.', 'DESIGN.md 4/C01'),
     'C02': (EXP, 'runtime monitoring: sanitized execution of generated API histories + offline strict CBOR/RFC 8618 parser over every closed output',
             'Seeded exporter histories (all public calls, present-but-empty structures, direct blocks, rotations, 3 compressions, name/fd) run against the '
-            + ASAN + '; every closed output is decompressed independently and parsed by a strict RFC 8949 parser and an RFC 8618 schema/index-closure validator written from the RFCs.' + HELD,
+            + ASAN + '; every closed output is decompressed independently and parsed by a strict RFC 8949 parser and an RFC 8618 schema/index-closure validator written from the RFCs (incl. the conditionally mandatory earliest-time). Histories with argument values a file cannot express exactly (record times beyond 2^63 ticks, ticks_per_second = 0) are judged on their outputs only.' + HELD,
             'Trusts vlib/cbor.py, vlib/cdns_schema.py (typed from the RFCs), Python zlib/lzma. Empty arrays accepted where the CDDL says [+ x].', 'DESIGN.md 4/C02'),
     'C03': (EXP, 'sanitizers (ASan+UBSan, libstdc++ assertions, valgrind memcheck, libFuzzer in the thorough tier) over structure-aware hostile inputs; allocation-size and CPU monitors',
             'Structure-aware mutations of valid files (22 kinds: length fields to 2^64-1, boundary integers, wrong majors, nesting to 200000, truncation, malformed names/addresses ...) through CdnsReader, every accessor and renderer, raw decoder '
@@ -26,12 +26,12 @@ CHECKS = {
             'largest single allocation <= 2048*len+1MiB, CPU <= 5 s.' + HELD,
             'Red-zone sanitizers miss intra-object overflows (libstdc++ assertions and memcheck narrow that gap); resource envelopes are generous linear bounds.', 'DESIGN.md 4/C03'),
     'C04': (EXP, 'runtime monitoring: sanitized exporter runs + offline hint oracle (member/bit table from the RFC, table reachability, canary byte search)',
-            'Records with every optional field set and unique canary byte strings, under each single hint bit cleared, each bit alone and random masks (also hints edited in place and taken into use by a rotation); the independent parser checks that no member '
+            'Records with every optional field set and unique canary byte strings, and sparse records made only of excluded fields, under each single hint bit cleared, each bit alone and random masks (also hints edited in place and taken into use by a rotation); the independent parser checks that no member '
             'whose bit is clear appears, every table entry is reachable, no disabled value occurs anywhere in the bytes and the preamble states the masks applied.' + HELD,
-            'Generic buffer_* API only (directly built blocks bypass hints by documented design).', 'DESIGN.md 4/C04'),
+            'Hint-applying (generic) calls only, on the exporter and on blocks the application configures itself (constructed, moved or copied into place); the low-level add_* calls taking ready-made items bypass hints by documented design.', 'DESIGN.md 4/C04'),
     'C05': (EXP, 'runtime monitoring: sanitized decoder/reader over inputs of controlled length and every relevant prefix, hook assertion on the decoder window',
             'Decoder: inputs of length 0, k*65535 and k*65535+-1..3, multi-byte items straddling a window boundary and cut inside, unopened/missing/directory streams x 12 first operations - every operation after exhaustion must throw CdnsDecoderEnd. '
-            'Reader: every prefix of valid multi-block files (exhaustive around block boundaries and window multiples, steered so that boundaries coincide) must return exactly the complete blocks, identical to the full file, then end-of-input.' + HELD,
+            'Reader: every prefix of valid multi-block files (exhaustive around block boundaries and window multiples, steered so that boundaries coincide) and EVERY prefix of small files holding all record kinds, must return exactly the complete blocks, identical to the full file, then end-of-input (CdnsDecoderEnd).' + HELD,
             'Block end offsets come from the independent parser; hook = friend access guarded by CDNS_VERIF.', 'DESIGN.md 4/C05'),
     'C06': (EXP, 'runtime monitoring: encoder driven at every buffer fill level (observed through a hook) against an independent reference encoder',
             '18 public write operations x every staging-buffer fill level 0..2048 (enumerated completely, coverage measured through the hook), all boundary values at the last 20 fill levels, all 2^8 / 2^16 values of the narrow overloads, '
@@ -43,17 +43,17 @@ CHECKS = {
             'Negative integers restricted to the int64 range of the return type.', 'DESIGN.md 4/C07'),
     'C08': (EXP, 'runtime monitoring: metamorphic testing - semantics-preserving re-encodings of valid files through the sanitized reader',
             'Valid exporter outputs are re-encoded by compositions of definite<->indefinite containers, chunked strings, non-minimal heads, map-member permutation and unknown integer keys with arbitrary well-formed values; '
-            'the CdnsReader dump (preamble, tables, generic records) must be identical to that of the original. The rewriter is self-checked with the independent interpreter.' + HELD,
+            'the CdnsReader dump (preamble, tables, generic records) must be identical to that of the original, also when the same reader thread is given damaged inputs in between. The rewriter is self-checked with the independent interpreter.' + HELD,
             'Trusts vlib/rewrite.py only as far as its self-check (independent interpretation unchanged).', 'DESIGN.md 4/C08'),
     'C09': (EXP, 'runtime monitoring: sanitized write->read of random preambles, compared member for member with the value written and with the independent interpretation',
-            'Random FilePreamble values (versions 0..255, private version present/absent, 1-8 parameter sets, every optional subset, full-width integers, lists of 0..40 codes, UTF-8, collection parameters absent/empty/partial/full) written by the exporter and read by CdnsReader.' + HELD,
+            'Random FilePreamble values (versions 0..255, private version present/absent, 1-8 parameter sets, every optional subset, full-width integers, lists of 0..40 codes, UTF-8, collection parameters absent/empty/partial/full) written by the exporter and read by CdnsReader; wide members swept over every alignment relative to the 2048-byte encoder buffer and the 65535-byte decoder window.' + HELD,
             'Empty interface/server-address/VLAN lists are indistinguishable from absent ones in the API.', 'DESIGN.md 4/C09'),
     'C10': (EXP, 'runtime monitoring: byte-count conservation oracle over logged API return values and independently measured output sizes',
             'Per output, the sum of the values returned by buffer_*/write_block/rotate_output equals the uncompressed size measured by independent decompression (+1 at destruction); per encoder call the return equals the reference encoding length.' + HELD,
             'Sizes measured after independent gzip/xz decompression.', 'DESIGN.md 4/C10'),
     'C11': (EXP, 'runtime monitoring: table histories against a list+dict model, hook-checked structural invariant, output-side duplicate/reachability oracle',
             'Interleaved add/get/clear over the nine block tables (small pools incl. values differing in one optional member and equal-hash values, large domains) against a reference model, with the index/storage invariant asserted through the hook; '
-            'exporter streams across many flushes checked for duplicate and unreachable table entries.' + HELD,
+            'exporter streams across many flushes checked for duplicate and unreachable table entries and for equality of the entries reached through stored indices with the values handed in.' + HELD,
             'Hook = friend access to BlockTable internals guarded by CDNS_VERIF.', 'DESIGN.md 4/C11'),
     'C12': (EXP, 'runtime monitoring: bounded-exhaustive call sequences against a reference state machine (conservation / flush oracle)',
             'ALL call sequences up to length 4 (quick) / 5 (thorough) over {qr, qr unstorable under set 1, aec key1, aec key2, mm, write_block, set_active 0/1} x max_block_items 0..3, counters queried after every call, then random sequences up to 300 calls; '
@@ -64,18 +64,18 @@ CHECKS = {
             'every closed output must be valid by itself, unchanged after the rotation returned, and the records over all outputs must equal the model stream.' + HELD,
             'Rotations stay within the output kind the exporter was constructed with.', 'DESIGN.md 4/C13'),
     'C14': (EXP, 'runtime monitoring: chunk sequences through the real writers, independent decompression as oracle, ASan stack/heap monitoring',
-            'Chunk sequences (compressible, random, empty; 0 B .. 32 MiB per write; 0-6 rotations) through the gzip/xz/plain writers, named and descriptor outputs; exactly one complete stream, right suffix, decompressed bytes == bytes written.' + HELD,
+            'Chunk sequences (compressible, random, empty; 0 B .. 32 MiB per write; 0-6 rotations) through the gzip/xz/plain writers, named and descriptor outputs; exactly one complete stream, right suffix, decompressed bytes == bytes written; also rotation onto the name being written, a failing first destination (/dev/full) and 8 concurrent independent writers.' + HELD,
             'Python zlib/lzma are the independent implementation.', 'DESIGN.md 4/C14'),
     'C15': (FE, 'fault injection: process killed before every output-related system call (interposed write/writev/rename), file-system state oracle',
             'For each scenario ({plain,gzip,xz} x {single, 3 rotations, onto existing names, onto the current name, destruction +- buffered data}) a dry run counts the output calls, then one process per k is killed immediately before its k-th call; '
-            'every file under a final name must be the one from before or a complete valid output; all data goes to *.part. Crash points are enumerated completely per scenario, scenarios are sampled.',
+            'every file under a final name must be the one from before or a complete valid output; all data goes to *.part. The same rule under write faults, with a destination whose .part name cannot be created, and with rename() itself failing (EXDEV/EBUSY) at every later crash point. Crash points are enumerated completely per scenario, scenarios are sampled.',
             'Crash = process death (no power loss). Interposition in the driver executable, no repository hook.', 'DESIGN.md 4/C15'),
     'C16': (FE, 'fault injection: every write/writev of each scenario fails (ENOSPC/EIO/short, once or persistently), exception/recovery oracle over the API log',
             'For every write k of every scenario x {name,fd}: the call is failed or cut short; oracle: some API call up to and including the closing rotate_output threw (unless no byte was lost), the failed block is still buffered, '
             'the next rotate_output to a healthy destination succeeds and write_block() then produces a complete valid file with exactly those records. Fault points enumerated completely per scenario.',
             '"no later than the closing rotate_output" read as: some call between the fault and that rotation (inclusive) threw; destruction is outside the guarantee.', 'DESIGN.md 4/C16'),
     'C17': (EXP, 'runtime monitoring: UBSan-instrumented timestamp arithmetic against Python big integers; block-side earliest-time oracle',
-            'Exhaustive small grid, boundary and random tuples for get_time_offset / add_time_offset / < / <= incl. INT64_MIN, checked against exact integer arithmetic; blocks built from shuffled timed/untimed records: earliest <= every record time, times recovered exactly.' + HELD,
+            'Exhaustive small grid, boundary and random tuples for get_time_offset / add_time_offset / < / <= incl. INT64_MIN, checked against exact integer arithmetic; blocks built from shuffled timed/untimed records: earliest <= every record time, times recovered exactly, also after the active tick rate was edited in place and taken into use by a rotation.' + HELD,
             'Results not representable in the signed 64-bit tick counter: only "refused or exact, no UB" asserted.', 'DESIGN.md 4/C17'),
     'C18': (EXP, 'runtime monitoring: the real cdns-merge / cdns-itemcount binaries (ASan+UBSan) on generated input tuples, independent interpretation as oracle',
             'Tuples of 1-6 inputs (different versions, private version, parameter sets, sibling captures differing in one member, re-encoded variants, empty/garbage/missing/truncated members, duplicates); merged blocks must equal the non-empty blocks of the readable, '
